@@ -452,6 +452,11 @@ class C12(Prop):
                 return ("import_not_like_direct", "an imported file must be parsed like a directly compiled one: expected %s, got %s" % (want, got))
         return None
 
+    def extra_checks(self, rng, tier, escalate):
+        viol = []
+        ev = _c12_relative_entry(viol)
+        return {"violations": viol, "evaluations": ev, "summary": {"relative_entry_runs": ev}}
+
     def group_oracle(self, cases, impls):
         groups = {}
         for c, i in zip(cases, impls):
@@ -482,6 +487,37 @@ class C12(Prop):
                 if se["out"] != pre["out"] or envd(se) != envd(pn):
                     viol.append((d["startenv"][0], "startenv_wrong", "STARTENV must contribute variables and functions but no output line"))
         return viol
+
+
+def _c12_relative_entry(viol_out):
+    """compile_file with a path relative to the working directory must behave like the absolute path"""
+    import shutil
+    ds = common.impl()["ds"]
+    base = "/tmp/dsv/c12rel_%d" % os.getpid()
+    ev = 0
+    old = os.getcwd()
+    try:
+        shutil.rmtree(base, ignore_errors=True)
+        os.makedirs(os.path.join(base, "proj", "app", "sub"))
+        os.makedirs(os.path.join(base, "proj", "lib"))
+        open(os.path.join(base, "proj", "app", "main.txt"), "w").write("START .lib.tools\nSTART sub.x\nSTRING main")
+        open(os.path.join(base, "proj", "app", "sub", "x.txt"), "w").write("START ..lib.tools\nSTRING x")
+        open(os.path.join(base, "proj", "lib", "tools.txt"), "w").write("STRING tools")
+        want = ds.Compiler().compile_file(os.path.join(base, "proj", "app", "main.txt")).output
+        for cwd, rel in ((os.path.join(base, "proj", "app"), "main.txt"), (os.path.join(base, "proj"), "app/main.txt"), (base, "proj/app/main.txt")):
+            os.chdir(cwd)
+            ev += 1
+            try:
+                got = ds.Compiler().compile_file(rel).output
+            except Exception as e:
+                got = "%s: %s" % (type(e).__name__, e)
+            if got != want:
+                viol_out.append(({"kind": "relative-entry", "cwd": cwd, "file": rel}, "relative_entry_path_differs",
+                                 "compile_file(%r) from %s gives %r, the absolute path gives %r" % (rel, cwd, got, want)))
+    finally:
+        os.chdir(old)
+        shutil.rmtree(base, ignore_errors=True)
+    return ev
 
 
 class C13(Prop):
@@ -548,10 +584,65 @@ class C13(Prop):
                 entry = r.randrange(nfiles)
                 kind = r.choice(["START", "START", "STARTCODE", "STARTENV"])
                 out.append(self.mkcase(edges, entry, nfiles, kind, r.random() < 0.3, r.random() < 0.25))
+        # files that never run a line, or end a WHILE on a false condition, imported twice / along two paths
+        for leaf in ("", "   \n\n", "VAR k 0\nWHILE k<0\n    PASS\nIF TRUE\n    STRING leaf", "WHILE FALSE\n    PASS\nREPEAT 1\n    STRING leaf"):
+            exp_leaf = ["STRING leaf"] if "leaf" in leaf else []
+            for kind in ("START", "STARTCODE", "STARTENV"):
+                out.append(fcase({("m.txt",): "%s e\n%s e\nSTRING done" % (kind, kind), ("e.txt",): leaf}, ("m.txt",), expect_status="OK",
+                                 expect_out=(exp_leaf * 2 if kind != "STARTENV" else []) + ["STRING done"]))
+            out.append(fcase({("m.txt",): "START a\nSTART b\nSTRING done", ("a.txt",): "START e\nIF TRUE\n    STRING a", ("b.txt",): "START e\nIF TRUE\n    STRING b", ("e.txt",): leaf},
+                             ("m.txt",), expect_status="OK", expect_out=exp_leaf + ["STRING a"] + exp_leaf + ["STRING b", "STRING done"]))
         # repeats and diamonds are accepted
         out.append(fcase({("m.txt",): "START a\nSTART a\nSTART b", ("a.txt",): "START c\nSTRING a", ("b.txt",): "START c\nSTRING b", ("c.txt",): "STRING c"}, ("m.txt",),
                          expect_status="OK", expect_out=["STRING c", "STRING a", "STRING c", "STRING a", "STRING c", "STRING b"]))
         return out
+
+    def extra_checks(self, rng, tier, escalate):
+        """the same cycle compiled again in the same process from another entry point; a cycle closed by a
+        START line that ran successfully before (implementation only)"""
+        import shutil
+        ds = common.impl()["ds"]
+        viol = []
+        ev = 0
+        base = "/tmp/dsv/c13x_%d" % os.getpid()
+        try:
+            for kind in ("START", "STARTCODE", "STARTENV"):
+                for n in (2, 3):
+                    shutil.rmtree(base, ignore_errors=True)
+                    os.makedirs(base)
+                    for k in range(n):
+                        open(os.path.join(base, "f%d.txt" % k), "w").write("STRING f%d\n%s f%d" % (k, kind, (k + 1) % n))
+                    for entry in list(range(n)) + [0]:
+                        ev += 1
+                        try:
+                            ds.Compiler(ds.CompileOptions(stack_limit=30)).compile_file(os.path.join(base, "f%d.txt" % entry))
+                            got = "OK"
+                        except ds.CompilationError as e:
+                            got = type(e).__name__
+                        except Exception as e:
+                            got = "CRASH " + type(e).__name__
+                        if got != "CircularStructureError":
+                            viol.append(({"kind": "cycle-twice", "import": kind, "files": n, "entry": entry}, "cycle_not_rejected_second_time",
+                                         "a %d-cycle compiled from entry f%d after other entry points gave %s" % (n, entry, got)))
+            # conditional import: b's `START a` runs successfully first, later closes a cycle
+            shutil.rmtree(base, ignore_errors=True)
+            os.makedirs(base)
+            open(os.path.join(base, "main.txt"), "w").write("VAR guard 0\nSTART b\nVAR guard 1\nSTART a")
+            open(os.path.join(base, "a.txt"), "w").write("STRING a\nIF guard == 1\n    START b")
+            open(os.path.join(base, "b.txt"), "w").write("STRING b\nSTART a")
+            ev += 1
+            try:
+                ds.Compiler(ds.CompileOptions(stack_limit=30)).compile_file(os.path.join(base, "main.txt"))
+                got = "OK"
+            except ds.CompilationError as e:
+                got = type(e).__name__
+            except Exception as e:
+                got = "CRASH " + type(e).__name__
+            if got != "CircularStructureError":
+                viol.append(({"kind": "conditional-cycle"}, "cycle_not_rejected_second_time", "a cycle closed by a START line that ran before gave %s" % got))
+        finally:
+            shutil.rmtree(base, ignore_errors=True)
+        return {"violations": viol, "evaluations": ev, "summary": {"cycle_replays": ev}}
 
     def oracle(self, c, i):
         st = c.get("expect_status")
@@ -647,6 +738,8 @@ class C14(Prop):
         out.append(comp("WHILE TRUE\n  CONTINUELOOP", {}, expect="CE:ExceededLimitError", timeout=60.0))
         out.append(comp("VAR c 0\nWHILE i,i<30000\n  VAR c c+1\n  IF c>5\n    CONTINUE\n  STRING x", {}, expect="CE:ExceededLimitError", timeout=90.0))
         out.append(comp("VAR c 0\nREPEAT 20000\n  VAR c c+1\n  CONTINUELOOP\n$STRING c", {}, expect="OK", timeout=120.0, expect_out=["STRING 20000"]))
+        # the REPEAT bound holds for the count re-evaluated on every iteration
+        out.append(comp("VAR n 19995\nVAR k 0\nREPEAT n\n  VAR n n+1\n  VAR k k+1\n  IF k>20100\n    BREAKLOOP", {}, expect="CE:InvalidArgumentsError", timeout=120.0))
         # imports that follow one another consume no depth
         for L in (5, 20):
             files = {("main.txt",): "\n".join(["START a", "STARTENV b", "STARTCODE a"] * (L // 2 + 2) + ["REPEAT 3", "  START a"]), ("a.txt",): "STRING a", ("b.txt",): "VAR x 1"}
@@ -899,6 +992,8 @@ class C16(Prop):
 
     def corpus(self, tier):
         out = []
+        out.append(fcase({("m.txt",): "START lib\nFROB main", ("lib.txt",): "STRING l1\nFROB lib"}, ("m.txt",), expect_located=[("lib.txt", 2), ("m.txt", 2)]))
+        out.append(fcase({("m.txt",): "STARTENV lib\nRUN f\nFROB main", ("lib.txt",): "FUNC f\n    STRING in\n    FROB lib"}, ("m.txt",), expect_located=[("lib.txt", 3), ("m.txt", 3)]))
         for t, exp in [("FOO  bar  ", "FOO bar"), ("foo", "FOO"), ("ſtring x", "STRING x"), ("$FOO 1+1", "FOO 2"), ("$foo \"a\"", "FOO a"), ("ELSE x", None)]:
             c = comp(t)
             if exp and t != "ſtring x":
@@ -910,6 +1005,10 @@ class C16(Prop):
         if "expect_out" in c:
             if i["status"] != "OK" or out_text(i) != c["expect_out"]:
                 return ("ignore_not_verbatim", "IGNORE body not emitted verbatim: %r" % out_text(i)[:6])
+        if "expect_located" in c and i["status"] == "OK":
+            got = sorted({(dec(w[1][-1][0][-1]) if w[1][-1][0] else None, w[1][-1][1][0]) for w in i["warnings"] if w[1]})
+            if got != sorted(tuple(x) for x in c["expect_located"]):
+                return ("unknown_not_warned", "warnings locate %r, expected %r" % (got, c["expect_located"]))
         if c.get("known_only") and i["status"] == "OK":
             if any("may not exist" in dec(w[0]) for w in i["warnings"]):
                 return ("known_program_warned", "unknown-command warning on a program of known commands")
@@ -982,6 +1081,52 @@ class C17(Prop):
                 elif json.dumps(iso[k], sort_keys=True) != key:
                     viol.append((dict(pool[k], note="history: " + json.dumps([pool[j]["text"] for j in hist])[:1500]), "history_dependence", "the result depends on earlier compilations"))
                     break
+        # a reused Compiler object behaves like a fresh one, whatever it compiled before
+        import yaml, shutil
+        ds = common.impl()["ds"]
+        root = "/tmp/dsv/c17r_%d" % os.getpid()
+        try:
+            shutil.rmtree(root, ignore_errors=True)
+            os.makedirs(os.path.join(root, "proj"))
+            os.makedirs(os.path.join(root, "plain"))
+            yaml.dump({"include_comments": True, "flipper_commands": False}, open(os.path.join(root, "proj", "config.yaml"), "w"))
+            open(os.path.join(root, "proj", "main.txt"), "w").write("REM c\nSTRING p")
+            open(os.path.join(root, "plain", "main.txt"), "w").write("START lib\nSTRING after")
+            open(os.path.join(root, "plain", "lib.txt"), "w").write("$STRING needs")
+            open(os.path.join(root, "plain", "ok.txt"), "w").write("VAR needs 1\nSTART lib")
+            probes = ["REM note\nALTCHAR 65\nFOO bar", "DEFAULT_DELAY 5\n$STRING $DEFAULT_DELAY", "$STRING $DEFAULT_DELAY+1", "DELAY -1", "STRING x"]
+
+            def rec(fn):
+                try:
+                    return common.compiled_rec(fn())
+                except Exception as e:
+                    return common.error_rec(e)
+            fresh = [rec(lambda t=t: ds.Compiler().compile(t)) for t in probes]
+            fresh_ok = rec(lambda: ds.Compiler().compile_file(os.path.join(root, "plain", "ok.txt")))
+            for first in ("proj", "fail", "text-fail", "text-ok"):
+                comp_obj = ds.Compiler()
+                if first == "proj":
+                    rec(lambda: comp_obj.compile_file(os.path.join(root, "proj", "main.txt")))
+                elif first == "fail":
+                    rec(lambda: comp_obj.compile_file(os.path.join(root, "plain", "main.txt")))   # fails inside lib.txt
+                elif first == "text-fail":
+                    rec(lambda: comp_obj.compile("DELAY -1"))
+                else:
+                    rec(lambda: comp_obj.compile("DEFAULT_DELAY 9\nSTRING a"))
+                for t, want in zip(probes, fresh):
+                    ev += 1
+                    got = rec(lambda t=t: comp_obj.compile(t))
+                    if json.dumps(got, sort_keys=True) != json.dumps(want, sort_keys=True):
+                        viol.append(({"kind": "reused-compiler", "first": first, "then": t}, "reused_compiler_differs",
+                                     "a reused Compiler gives %s for %r, a fresh one %s" % (got.get("status"), t, want.get("status"))))
+                        break
+                ev += 1
+                got = rec(lambda: ds.Compiler().compile_file(os.path.join(root, "plain", "ok.txt")))
+                if json.dumps(got, sort_keys=True) != json.dumps(fresh_ok, sort_keys=True):
+                    viol.append(({"kind": "after-failed-import", "first": first}, "history_dependence",
+                                 "a valid import gives %s %s after an earlier compilation (%s)" % (got.get("status"), got.get("err", ""), first)))
+        finally:
+            shutil.rmtree(root, ignore_errors=True)
         # a compilation must not change the caller's options object (shared between Compiler instances)
         import yaml, shutil
         ds = common.impl()["ds"]
@@ -1071,7 +1216,7 @@ class C19(Prop):
         return [comp(s) for s in self.sources(rsub(rng), 30)]
 
     def sources(self, r, n):
-        out = ["STRING ok", "STRING a\nDELAY -1", "PRINT hi\nSTRING a", "PRINT hi\nDELAY -1", "FOO x", "STRING a\n  b\n      c", "REM c\nSTRING x", "",
+        out = ["PRINT p\nSTRING a\nFUNC f\n    RUN f\nRUN f", "IF TRUE\n  IF TRUE\n    IF TRUE\n      IF TRUE\n        IF TRUE\n          IF TRUE\n            STRING deep", "STRING ok", "STRING a\nDELAY -1", "PRINT hi\nSTRING a", "PRINT hi\nDELAY -1", "FOO x", "STRING a\n  b\n      c", "REM c\nSTRING x", "",
                "PRINT [/red] x\nSTRING a", "PRINT a\nSTRING [bold]\nDELAY -1", "STRING \\[x]\n[/red] 5", "PRINT [link\nSTRING a"]
         for _ in range(n):
             pg = gen.ProgGen(r, valid=r.choice([1.0, 0.8]), weights={"prt": 3})
@@ -1112,7 +1257,7 @@ class C19(Prop):
                 with_proj_cfg = r.random() < 0.4
                 proj_cfg = r.choice([{"include_comments": True, "stack_limit": 30}, {"stack_limit": 30}, {"flipper_commands": True}, {"include_comments": False}])
                 cli_comments = r.random() < 0.5
-                cli_limit = r.choice([20, 20, 40])
+                cli_limit = r.choice([20, 20, 40, 5])
                 if with_proj_cfg:
                     yaml.dump(proj_cfg, open(os.path.join(proj, "config.yaml"), "w"))
                 if r.random() < 0.4:
@@ -1235,6 +1380,8 @@ class C20(Prop):
                 out.append(comp("REPEAT %s,1\n    PASS" % nm, {}, define=nm))
             else:
                 out.append(comp("WHILE %s,FALSE\n    PASS" % nm, {}, define=nm))
+        for t in ["FUNC f a,\n    PASS", "FUNC f a,b,\n    PASS", "FUNC f a, b ,\n    PASS", "FUNC f ,a\n    PASS", "FUNC f a,,\n    PASS"]:
+            out.append(comp(t, {}, define=""))
         out.append(comp("REPEAT 1a,0\n    PASS", {}, define="1a", zero_iter=True))
         out.append(comp("VAR $x 1", {}, define="$x"))
         out.append(comp("VAR $DEFAULT_DELAY 5", {}, define="$DEFAULT_DELAY"))
@@ -1263,6 +1410,16 @@ class C20(Prop):
             else:
                 lines.append("EXIST " + target)
                 exp = None
+            if r.random() < 0.3:
+                # the same name bound elsewhere (a parameter of a function that is run, a loop counter)
+                # assigns it; it must still be readable afterwards
+                other = r.choice([x for x in names if bool_safe(x)] or ["zz"])
+                k = r.randrange(3)
+                extra = {0: ["FUNC fq " + other, "    PASS", "RUN fq 7"], 1: ["REPEAT " + other + ",2", "    PASS"], 2: ["WHILE " + other + "," + other + "<1", "    PASS"]}[k]
+                lines = lines[:-1] + extra + lines[-1:]
+                if other == target:
+                    newval = {0: 7, 1: 1, 2: 1}[k]
+                    exp = None if exp is None else "STRING %d" % newval
             cases.append(comp("\n".join(lines), {}, read=target, expect_last=exp, names=names))
         return cases
 
